@@ -62,6 +62,24 @@ func regPayload(rng *rand.Rand, n int) []byte {
 			d[i] = byte(i + 1)
 		}
 	}
+	if n >= 2 && rng.Intn(5) == 0 {
+		// float patterns that arithmetic does not preserve: signalling and quiet NaNs with payloads, infinities, -0, denormals
+		pats := [][]byte{{0x7f, 0xa0, 0x00, 0x01}, {0xff, 0xa0, 0x00, 0x01}, {0x7f, 0x80, 0x00, 0x01}, {0x7f, 0xc0, 0x12, 0x34}, {0x7f, 0x80, 0, 0},
+			{0x80, 0, 0, 0}, {0, 0, 0, 1}, {0x7f, 0xf4, 0, 0, 0, 0, 0, 1}, {0xff, 0xf0, 0, 0, 0, 0, 0x12, 0x34}, {0x7f, 0xf8, 0, 0, 0, 0, 0, 0}, {0x80, 0, 0, 0, 0, 0, 0, 0}}
+		p := pats[rng.Intn(len(pats))]
+		if len(p) <= len(d) {
+			off := 2 * rng.Intn((len(d)-len(p))/2+1)
+			if rng.Intn(2) == 0 {
+				// little endian / low word first layouts of the same value
+				q := append([]byte{}, p...)
+				for i, j := 0, len(q)-1; i < j; i, j = i+1, j-1 {
+					q[i], q[j] = q[j], q[i]
+				}
+				p = q
+			}
+			copy(d[off:], p)
+		}
+	}
 	return d
 }
 
@@ -278,6 +296,9 @@ func genXf(rng *rand.Rand, kind string, count int, shard, nshards int, emit emit
 			start = rng.Intn(4)
 		}
 		nf := 1 + rng.Intn(8)
+		if rng.Intn(8) == 0 {
+			nf = 15 + rng.Intn(30) // more fields than a small scratch buffer holds
+		}
 		fs := make([]genField, 0, nf)
 		for j := 0; j < nf; j++ {
 			f := genField{name: fmt.Sprintf("f%d", j), server: "x", unit: 1}
